@@ -19,7 +19,9 @@ CLAIMS = {
           "containers' fallible operations reach a failure return only with the container untouched (ATOMIC, with callee summaries "
           "and success-edge-only effects), realloc never overwrites its argument, and the void deleters/cancels/destructors handle "
           "every reachable allocation failure locally (INFALLIBLE), and from the NULL edge of every tested acquisition only failure returns "
-          "are reachable, never a fall-through into the success return (REPORTED). Quantifying over every acquisition site's failure edge is what "
+          "are reachable, never a fall-through into the success return (REPORTED); a failed events_network_register leaves neither its slot "
+          "nor a pollfd entry behind; a failed netbuf_write_reserve leaves nothing reserved (this rule located a real abort-after-failure, now "
+          "fixed); released pointers with static storage are cleared. Quantifying over every acquisition site's failure edge is what "
           "'failure of the k-th allocation for every k' means structurally; tests sample none of these paths.",
   "note": "Trusted: clang CFG, acquire/release pairing tables (discovered ctor/dtor name pairs + libc/OpenSSL list), two LEAK and "
           "one INFALLIBLE frozen exceptions with reasons. Not decided: leaks on success paths, libc under real exhaustion.",
@@ -52,7 +54,8 @@ CLAIMS = {
           "passed on; the writer's no-orphan rule (shared with C07); every acquisition in http.c, netbuf_read.c, netbuf_write.c and "
           "network_connect.c tested before use and released on every failure path, realloc never over its argument (shared with C14); "
           "the reader's window invariant and launch preconditions (relational, shared with C07); no field of the malloc'ed request "
-          "read before it is stored along any continuation path. Hostile byte streams only choose CFG edges, and all edges are "
+          "read before it is stored along any continuation path; the buffered writer's whole rule set (shared with C07); a position one "
+          "past a span (the header value after the colon) only where the span did not end at the terminator. Hostile byte streams only choose CFG edges, and all edges are "
           "analysed.",
   "note": "Trusted: the reader's peek window is exactly buflen readable bytes; libc strto*/sscanf semantics. Not decided: the "
           "line-splitting assertions in header parsing (a counting argument E3 cannot carry), termination, success-path leaks.",
@@ -84,7 +87,9 @@ CLAIMS = {
           "exactly, the transport never asked for zero bytes (this rule located a real assertion failure on zero-length writes, now "
           "fixed; proved on the repaired code by a small disjunctive linear-fact domain), slot discipline of the three pending fields, "
           "the window expressions given to the transport/peek/reserve, the order of the compaction triple, status routing and the "
-          "immediate-success condition; a buffer taken off the queue is launched, freed or still reachable (no orphan). Necessary conditions of stream preservation; the refinement itself is not decided.",
+          "immediate-success condition; a buffer taken off the queue is launched, freed or still reachable (no orphan); the completed "
+          "buffer is freed on every path of the completion handler, the failure path included; cancelling a wait discards no received "
+          "byte (refuted on this tree: see the known finding). Necessary conditions of stream preservation; the refinement itself is not decided.",
   "note": "KNOWN FINDING (recorded, not repaired): cancelling a wait whose read was launched with a minimum above one byte loses the "
           "bytes the transport had received but not yet reported (rule F8-cancel; replay notes/probe_netbuf_cancel.c; DESIGN.md section 5, H). "
           "Trusted: STAILQ macros; the transport delivers at most the capacity it was given (its side is decided as N6, which C07 "
@@ -101,7 +106,8 @@ CLAIMS = {
           "copy-like call into a fixed-size or locally allocated object is bounded by a constant or a dominating length test (linear "
           "facts), the serialised-address decoder reads only what its length tests established; strlen-relative indices need a "
           "non-empty witness; a local character array handed to a string function was filled or terminated on every path (fgets only "
-          "on its non-NULL edge). Truncations and hostile length fields only select CFG edges; all are analysed.",
+          "on its non-NULL edge); an unsigned subtraction inside an array index is provably non-wrapping where it is used (relational). "
+          "Truncations and hostile length fields only select CFG edges; all are analysed.",
   "note": "Trusted: libc string/conversion functions stay within valid NUL-terminated strings; clang CFG. Not decided: termination; "
           "the command-line parser (C18); humansize_parse's string cursor (needs the correlation state == -1, see C16 for its arithmetic).",
   "technique": "static analysis: cursor-distance abstract domain (E4) + linear-fact dataflow + dominance rules on clang CFG",
@@ -191,7 +197,8 @@ CLAIMS = {
           "primality with its Sophie-Germain half in the thorough tier); blinded_modexp's success path is interpreted algebraically: "
           "each BIGNUM is a linear form over {priv, blinding, 2^256} or a power of the caller's base, so the exported value is "
           "base^(priv + 4*2^256) mod p with the blinding's coefficient exactly zero, all operations on the group-14 modulus, every "
-          "fallible BN step tested; left-padding (with the length measured on the very value exported) and the numeric sanity comparison are structural. With OpenSSL's BN semantics "
+          "fallible BN step tested, every BIGNUM released on every failure path and none left dangling in static storage (shared with C14); "
+          "left-padding (with the length measured on the very value exported) and the numeric sanity comparison are structural. With OpenSSL's BN semantics "
           "trusted this decides the property for all private, peer and blinding values.",
   "note": "Trusted: OpenSSL BN_* semantics; the success path executes every BN call in source order (each is behind an error test).",
   "technique": "static analysis: abstract interpretation with linear forms over the call sequence + constant table vs. standard",
